@@ -17,6 +17,10 @@ class MethodObject:
         self.pyfunction = pyname.get_object()
         self.pymodule = self.pyfunction.get_module()
         self.resource = self.pymodule.get_resource()
+        if self.resource is None or self.resource.project != self.project:
+            raise exceptions.RefactoringError(
+                "The function is defined outside the project; it cannot be changed."
+            )
 
     def get_new_class(self, name):
         body = sourceutils.fix_indentation(
